@@ -52,6 +52,10 @@ type block struct {
 	// every composition into rounds (otherwise uncut, one cut at every position, cut everywhere).
 	Renames bool
 	AllCuts bool
+	// C1: the histories are C1Histories(); C1Users: including user display names.
+	C1           bool
+	NoC1Users    bool // leave the C1 texts out of user display names
+	C1OnlyLabels bool // also a label name that is nothing but a control character
 	// MinLen: skip shorter histories (used to avoid repeating what another block already covers).
 	MinLen int
 }
@@ -66,6 +70,7 @@ func plan(tier string) []block {
 			{Name: "dropped connection at every request, full alphabet, length<=3", Cfg: "std", Alphabet: fullAlphabet, MaxLen: 3, Fault: faultDrop},
 			{Name: "COLLIDING id spaces (notes, label events, state events, iids all start at 1), core alphabet, length<=4", Cfg: "collide", Alphabet: coreAlphabet, MaxLen: 4, Fault: fault403},
 			{Name: "hostile NEW titles in title-change notes (9 titles x only/first/last rename x bare/busy issue), every cut, per-round overlap bits, 403 at every request", Cfg: "std", Renames: true, AllCuts: true, Fault: fault403, PerRoundBits: true},
+			{Name: "C1 control characters (5 texts) at every text position (issue title, description, comment, comment edit, description change, label name, rename note), every cut, per-round overlap bits, 403 at every request", Cfg: "std", C1: true, AllCuts: true, Fault: fault403, PerRoundBits: true},
 		}
 	}
 	return []block{
@@ -75,6 +80,7 @@ func plan(tier string) []block {
 		{Name: "dropped connection at every request, core alphabet, length<=3", Cfg: "std", Alphabet: coreAlphabet, MaxLen: 3, Fault: faultDrop},
 		{Name: "COLLIDING id spaces (notes, label events, state events, iids all start at 1), core alphabet, length<=3", Cfg: "collide", Alphabet: coreAlphabet, MaxLen: 3, Fault: fault403},
 		{Name: "hostile NEW titles in title-change notes (9 titles x only/first/last rename x bare/busy issue), uncut / one cut at every position / cut everywhere, 403 at every request", Cfg: "std", Renames: true, Fault: fault403},
+		{Name: "C1 control characters (5 texts) at every text position (issue title, description, comment, comment edit, description change, label name, rename note), uncut / one cut at every position / cut everywhere, 403 at every request", Cfg: "std", C1: true, Fault: fault403},
 	}
 }
 
@@ -83,13 +89,16 @@ func (b block) cases() (cases []Case, histories int) {
 	if b.Renames {
 		hs = RenameHistories()
 	}
+	if b.C1 {
+		hs = C1Histories(!b.NoC1Users, b.C1OnlyLabels)
+	}
 	for _, h := range hs {
 		if len(h) < b.MinLen {
 			continue
 		}
 		histories++
 		comps := Compositions(h)
-		if b.Renames && !b.AllCuts {
+		if (b.Renames || b.C1) && !b.AllCuts {
 			comps = SingleCuts(h)
 		}
 		for _, rounds := range comps {
@@ -100,7 +109,7 @@ func (b block) cases() (cases []Case, histories int) {
 					for i := range near {
 						near[i] = mask&(1<<i) != 0
 					}
-					cases = append(cases, Case{Cfg: b.Cfg, Rounds: rounds, Near: near, Fault: b.Fault, Sel: -1, BaseOracles: true, CheckCache: b.Renames})
+					cases = append(cases, Case{Cfg: b.Cfg, Rounds: rounds, Near: near, Fault: b.Fault, Sel: -1, BaseOracles: true, CheckCache: b.Renames || b.C1})
 				}
 			} else {
 				for _, bit := range []bool{true, false} {
@@ -108,7 +117,7 @@ func (b block) cases() (cases []Case, histories int) {
 					for i := range near {
 						near[i] = bit
 					}
-					cases = append(cases, Case{Cfg: b.Cfg, Rounds: rounds, Near: near, Fault: b.Fault, Sel: -1, BaseOracles: true, CheckCache: b.Renames})
+					cases = append(cases, Case{Cfg: b.Cfg, Rounds: rounds, Near: near, Fault: b.Fault, Sel: -1, BaseOracles: true, CheckCache: b.Renames || b.C1})
 				}
 			}
 		}
@@ -349,6 +358,7 @@ func Main(args []string) {
 	fs := flag.NewFlagSet("C16", flag.ExitOnError)
 	replay := fs.String("replay", "", "replay file")
 	only := fs.Int("block", -1, "run only this block of the plan")
+	c1labels := fs.Bool("c1-only-control-labels", false, "C1 block: also a label whose name is nothing but a control character (cleans to the empty label, which git-bug refuses: GitLab does not accept blank label names, so this is outside the default space)")
 	maxLen := fs.Int("maxlen", 0, "override the history length bound of every block")
 	budgetS := fs.Int("budget", 0, "override the internal deadline (seconds)")
 	fs.Parse(args)
@@ -382,6 +392,9 @@ func Main(args []string) {
 			if b.MinLen > b.MaxLen {
 				b.MinLen = b.MaxLen
 			}
+		}
+		if b.C1 && *c1labels {
+			b.C1OnlyLabels = true
 		}
 		cases, nh := b.cases()
 		t0 := time.Now()
